@@ -186,11 +186,12 @@ func runC26(c *Ctx) {
 		}
 		in := pf.Params[1]
 		var outBuf ssa.Value
-		eachInstr(pf, func(x ssa.Instruction) {
-			if a, ok := x.(*ssa.Alloc); ok && typeIs(a.Type(), "bytes", "Buffer") {
-				outBuf = a
+		for _, r := range returnsOf(pf) {
+			if cl := callValue(retVal(r, 0)); cl != nil && calleeName(&cl.Call) == "(*bytes.Buffer).Bytes" {
+				outBuf = seeThrough(cl.Call.Args[0])
 			}
-		})
+		}
+		checkNoReusedBufferEscape(c, "payload-owned", scope, 5)
 		if outBuf == nil {
 			c.Undecided("forward-framing", "prepareForwardMessage", "no output buffer")
 		} else {
